@@ -9,18 +9,25 @@ def toF : JNumber → Float
   | .int n => Float.ofInt n
   | .flt x => x
 
-/-- StickBreakingTransform._inverse on a vector -/
-def stickInvF (y : List Float) : List Float :=
+/-- the CLI process computes the inverse transforms on `torch.tensor(<python floats>)`, i.e. in float32 -/
+def to32 (x : JNumber) : Float32 := (toF x).toFloat32
+def of32 (x : Float32) : JNumber := .flt x.toFloat
+
+def tiny32 : Float32 := (1.1754943508222875e-38 : Float).toFloat32
+def eps32 : Float32 := (1.1920928955078125e-07 : Float).toFloat32
+
+/-- StickBreakingTransform._inverse on a vector (float32) -/
+def stickInvF (y : List Float32) : List Float32 :=
   let k := y.length
   let crop := y.take (k - 1)
-  let rec go : List Float → Float → Nat → List Float
+  let rec go : List Float32 → Float32 → Nat → List Float32
     | [], _, _ => []
     | v :: vs, cum, i =>
       let cum' := cum + v
       let sf := 1.0 - cum'
-      let sf := if sf < 1.1754943508222875e-38 then 1.1754943508222875e-38 else sf
-      let off := Float.ofNat (k - (i + 1))
-      (Float.log v - Float.log sf + Float.log off) :: go vs cum' (i + 1)
+      let sf := if sf < tiny32 then tiny32 else sf
+      let off := Float32.ofNat (k - (i + 1))
+      (Float32.log v - Float32.log sf + Float32.log off) :: go vs cum' (i + 1)
   go crop 0.0 0
 
 instance : CliNum JNumber where
@@ -37,15 +44,15 @@ instance : CliNum JNumber where
   toNat
     | .int n => if n ≥ 0 then some n.toNat else none
     | .flt _ => none
-  sub a b := .flt (toF a - toF b)
-  log a := .flt (Float.log (toF a))
+  sub a b := of32 (to32 a - to32 b)
+  log a := of32 (Float32.log (to32 a))
   logit a :=
-    -- SigmoidTransform._inverse clamps to [finfo.tiny, 1 - finfo.eps] (float32 in the CLI process)
-    let y := toF a
-    let y := if y < 1.1754943508222875e-38 then 1.1754943508222875e-38 else y
-    let y := if y > 1.0 - 1.1920928955078125e-07 then 1.0 - 1.1920928955078125e-07 else y
-    .flt (Float.log y - Float.log (1.0 - y))
-  stickInv ys := (stickInvF (ys.map toF)).map JNumber.flt
+    -- SigmoidTransform._inverse clamps to [finfo.tiny, 1 - finfo.eps]
+    let y := to32 a
+    let y := if y < tiny32 then tiny32 else y
+    let y := if y > 1.0 - eps32 then 1.0 - eps32 else y
+    of32 (Float32.log y - Float32.log (1.0 - y))
+  stickInv ys := (stickInvF (ys.map to32)).map of32
 
 def handle (line : String) : String :=
   match splitWords line with
